@@ -594,7 +594,11 @@ func (c *compiler) compile(tok *token) []instruction {
 			if len(args) > 0 && args[len(args)-1].Symbol == "..." {
 				ellipsis = 1
 			}
-			res = append(res, instruction{Code: code, A: reg(len(args)), B: reg(ellipsis)})
+			ins := instruction{Code: code, A: reg(len(args)), B: reg(ellipsis)}
+			if code == codeCopy {
+				ins.C = reg(tok.Tokens[callReturns].Int()) // the number of elements copied, when it is asked for
+			}
+			res = append(res, ins)
 		} else {
 			fnc := c.compile(tok.Tokens[callName])
 			if tok.Tokens[callName].Symbol == "(name)" {
